@@ -37,7 +37,7 @@ PLAN = {
     'C19': {
         'fronts': ['pyvc.fronts.effects:run_c19', 'pyvc.fronts.effects:run_c11'],
         'bounded': [],
-        'assumptions': ['A-lt: sorted() may run a user __lt__; a TypeError from it is swallowed by design (represent_mapping)'],
+        'assumptions': ['A-lt: sorted() may run a user __lt__; a TypeError from it is swallowed by design (represent_mapping)', 'A-hash: hash(key) in construct_mapping may run a user __hash__; a TypeError from it becomes the ConstructorError for an unhashable key (by design); neither is a stream or constructor/representer callback'],
         'explanation': 'exception transparency: no handler can catch a stream or callback exception; output is append-only; frame of C11 for "usable afterwards"',
     },
     'C13': {
